@@ -226,7 +226,7 @@ def run_pairing(ctx: Ctx) -> RuleResult:
 
     # -- pushes -----------------------------------------------------------------------------
     pushes, pops, other_mut = [], [], []
-    for m in k.methods.values():
+    for m in k.swept_methods():
         if m.name in ('__init__',):
             continue
         msn = m.self_name()
@@ -267,7 +267,7 @@ def run_pairing(ctx: Ctx) -> RuleResult:
             fail(m, st, 'INDENT is not emitted exactly when the new indentation exceeds the current level '
                         '(guard %s)' % [norm(g.test) for g in guards], 'push-guard')
     # INDENT yields only at pushes
-    all_ind = [None] * sum(_yields_on_path(m.node.body, m.self_name() or 'self', 'INDENT_type')[1] for m in k.methods.values())
+    all_ind = [None] * sum(_yields_on_path(m.node.body, m.self_name() or 'self', 'INDENT_type')[1] for m in k.swept_methods())
     ok = len(all_ind) == len(pushes)
     res.ob(site_h, 'no INDENT is emitted without a push', ok)
     if not ok:
@@ -294,7 +294,7 @@ def run_pairing(ctx: Ctx) -> RuleResult:
             if not ok:
                 fail(m, st, 'end-of-stream drain does not pop down to exactly the base level (%s)'
                      % [norm(l.test) for l in loops], 'drain-guard')
-    all_ded = [None] * sum(_yields_on_path(m.node.body, m.self_name() or 'self', 'DEDENT_type')[1] for m in k.methods.values())
+    all_ded = [None] * sum(_yields_on_path(m.node.body, m.self_name() or 'self', 'DEDENT_type')[1] for m in k.swept_methods())
     ok = len(all_ded) == len(pops)
     res.ob(site_h, 'no DEDENT is emitted without a pop', ok)
     if not ok:
@@ -325,7 +325,7 @@ def run_pairing(ctx: Ctx) -> RuleResult:
              'paren-guard')
     psn = proc.self_name()
     incs, decs = [], []
-    for m in k.methods.values():
+    for m in k.swept_methods():
         for n in m.body_nodes():
             if isinstance(n, ast.AugAssign) and isinstance(n.target, ast.Attribute) and n.target.attr == 'paren_level':
                 (incs if isinstance(n.op, ast.Add) else decs).append((m, n))
